@@ -31,7 +31,7 @@ RULE = (
 )
 ASSUMPTIONS = ["fold model rtmon.spec.chain_fold", "default delimiter ':' (the delimiter is not among the dimensions C09 quantifies over)"]
 
-PA = ["a", "A", "b", "B", "ab", "c", "C", "", "AB"]
+PA = ["a", "A", "b", "B", "ab", "c", "C", "", "AB", "ss", "ß", "s", "ſ", "a,b"]
 UA = ["u/", "U/", "u/x", "v/", "V/", "v", "", "w#", "W#", "u/X"]
 
 
@@ -112,6 +112,15 @@ def run_case(ctx, g, rng):
     api, S = ctx.api, probe.S
     n = rng.choice([1, 2, 2, 3, 3, 4])
     convs = [gconv(rng) for _ in range(n)]
+    if rng.random() < 0.06:
+        # two descriptions of one record in two converters whose synonym lists differ although their comma-joined
+        # spellings coincide (["a,b"] against ["a", "b"]): nothing of either may get lost
+        twin = rng.choice(["curie", "uri"])
+        one = spec.Rec("tw", "tw/", ("x,y",) if twin == "curie" else (), ("tw/1,tw/2",) if twin == "uri" else (), None)
+        two = spec.Rec("tw", "tw/", ("x", "y") if twin == "curie" else (), ("tw/1", "tw/2") if twin == "uri" else (), None)
+        convs = [[one], [two]] if rng.random() < 0.5 else [[two], [one]]
+        n = 2
+        S.counters["wl:comma-twins"] += 1
     cs = rng.random() < 0.5
     real = [api.Converter([gen.mk_record(api, r) for r in recs]) for recs in convs]
     ordered = [list(spec.snapshot(c)) for c in real]
